@@ -74,6 +74,8 @@ Scan(text, i) ==
 
 \* a template with no expression at all evaluates to its body tokens
 OnlyBody(ts) == \A i \in DOMAIN ts : ts[i].k = "BODY"
+\* no expression or identifier at all: everything is literal output (an unterminated "@(" and what follows it included, verbatim)
+NoExpr(ts) == \A i \in DOMAIN ts : ts[i].k \in {"BODY", "BODYX"}
 RECURSIVE BodyText(_)
 BodyText(ts) == IF ts = <<>> THEN <<>> ELSE ts[1].v \o BodyText(Tail(ts))
 
